@@ -328,13 +328,14 @@ PROPS = {
                    "every ring of 1..4 (thorough 5) vertices on the 3x3 grid with both roles, and is idempotent on non-zero-area "
                    "rings; the harness constructs the same rings (x 3 point types, via new / with_rings / polygon!), random ring "
                    "lists with any roles, multipatches of all six kinds (new / with_parts / multipatch!), ends differing in Z or M "
-                   "only, and TLC validates every observed (input, output, rebuilt) triple against RingOK / PatchOK",
+                   "only, rings of 129..600 vertices whose few area-carrying edges fall on the middle, the quarters and random positions, "
+                   "and TLC validates every observed (input, output, rebuilt) triple against RingOK / PatchOK",
         level_note="trusted: TLC, the id<->f64 tables; orientation claimed only under exact dyadic X/Y (id * 2^k); one trace file "
                    "uses arbitrary special doubles for closure and vertex preservation only",
         technique="behaviour replay + trace validation: exhaustive grid rings through the real constructors, validated by TLC",
         mc=[dict(module="MC_Rings", quick="MC_Rings.cfg", thorough="MC_Rings_T.cfg", workers=8)],
-        stages=[dict(cmd="rings", spec="Trace_Rings", quick=dict(chunks=8, maxv=4, random=300),
-                     thorough=dict(chunks=16, maxv=5, random=5000))],
+        stages=[dict(cmd="rings", spec="Trace_Rings", quick=dict(chunks=8, maxv=4, random=300, long=60),
+                     thorough=dict(chunks=16, maxv=5, random=5000, long=600))],
         rule="a case = one constructor call; grid rings are enumerated exhaustively (9^n for n = 1..maxv) x 2 roles x 3 point types",
         exhaustive=True,
     ),
@@ -347,7 +348,10 @@ PROPS = {
         mc=[CODEC_MC],
         stages=[dict(cmd="codec", spec="Trace_Codec", gen="Gen_Shapes",
                      quick=dict(chunks=4, cases=12, large=2),
-                     thorough=dict(chunks=12, cases=80, large=10, sweep=1))],
+                     thorough=dict(chunks=12, cases=80, large=10, sweep=1)),
+                # after a write_shape call that failed: the next record still announces its own shape's size
+                dict(cmd="faults", spec="Trace_Writer", quick=dict(chunks=8, types=13, hists=1),
+                     thorough=dict(chunks=16, types=13, hists=3))],
         rule="a case = shapes of one type; size_in_bytes, length of write_to output and the record's content-length "
              "field are compared with the specification's ContentSize",
     ),
